@@ -424,3 +424,22 @@ func specHasMerge(options []Option) bool {
 	}
 	return specHasMerge(options[1:])
 }
+
+// samePE: the same path element (identity; keyed elements compared by their key objects).
+func samePE(a, b PathElement) bool {
+	switch x := a.(type) {
+	case PathSetKeys:
+		y, ok := b.(PathSetKeys)
+		return ok && same(jsonObject(x), jsonObject(y))
+	case PathMultisetKeys:
+		y, ok := b.(PathMultisetKeys)
+		return ok && same(jsonObject(x), jsonObject(y))
+	case nil:
+		return b == nil
+	}
+	switch b.(type) {
+	case PathSetKeys, PathMultisetKeys:
+		return false
+	}
+	return a == b
+}
